@@ -88,6 +88,7 @@ def _compile(text):
     return units, list(_CAPTURE)
 
 
+TOKEN_RE = re.compile(rb'[\s(),]+')
 UUID_RE = re.compile(rb'[0-9a-f]{8}-[0-9a-f]{4}-[0-9a-f]{4}-[0-9a-f]{4}-[0-9a-f]{12}')
 DUMMY_RE = re.compile(rb'(_dml_dummy SET flag = TRUE WHERE \(id = \(+)\d+')
 
@@ -101,8 +102,10 @@ def fingerprint(units, mask=False):
         sql = u.sql if isinstance(u.sql, (bytes, bytearray)) else b'\0'.join(u.sql or ())
         if mask:
             sql = DUMMY_RE.sub(rb'\1<N>', sql)
-        if mask == 2:
+        if mask in (2, 3):
             sql = UUID_RE.sub(b'<UUID>', sql)
+        if mask == 3:
+            sql = b' '.join(sorted(TOKEN_RE.split(sql)))
         for part in (sql, u.out_type_data or b'', (u.out_type_id or b''), u.in_type_data or b'',
                      (u.in_type_id or b''), repr(u.in_type_args).encode(), repr(u.globals).encode()):
             if not isinstance(part, (bytes, bytearray)):
@@ -138,7 +141,10 @@ def run_case(case):
     try:
         units, trees = _compile(text)
     except S['errors'].InternalServerError as e:
-        return [('internal-error', f'{text}: {e}')], info
+        # no SQL is emitted: outside the statement ("every SQL statement the compiler emits")
+        info['status'] = 'compiler-crash'
+        info['why'] = f'InternalServerError: {str(e)[:50]}'
+        return [], info
     except S['errors'].EdgeDBError as e:
         info['status'] = 'rejected'
         info['why'] = f'{type(e).__name__}: {str(e)[:60]}'
@@ -233,6 +239,13 @@ def run_case(case):
                              f'`{text}`: two compilations differ only in uuid-valued identifiers '
                              f'(ids of transient schema objects used as column names)'))
                 break
+            if fp1 != fp2 and fingerprint(units, mask=3) == fingerprint(units2, mask=3):
+                kind = 'dml' if any(f.startswith('dml-') for f in case.get('features', [])) or \
+                    re.search(r'\b(insert|update|delete)\b', text) else 'query'
+                viol.append((f'nondeterministic:reordered:{kind}',
+                             f'`{text}`: two compilations emit the same SQL tokens in a different order: '
+                             f'{_diff_parts(units, units2)}'))
+                break
             if fp1 != fp2:
                 a = units[0].sql if units else b''
                 b = units2[0].sql if units2 else b''
@@ -242,7 +255,7 @@ def run_case(case):
         except Exception as e:
             viol.append(('nondeterministic:second-compile-fails', f'`{text}`: {type(e).__name__}: {e}'))
             break
-    info.update(stats=stats, fp=fp1, fp_loose=fingerprint(units, mask=2))
+    info.update(stats=stats, fp=fp1, fp_loose=fingerprint(units, mask=2), fp_bag=fingerprint(units, mask=3))
     return viol, info
 
 
@@ -270,8 +283,8 @@ def _run(rec, case, det_pool):
     rec.case(case['text'], nontrivial=bool(nontrivial), classes=classes,
              sample={'text': case['text'][:400], 'sql_levels': lv, 'column_refs': st.get('colrefs')})
     rec.extra['column_refs_checked'] = rec.extra.get('column_refs_checked', 0) + st.get('colrefs', 0)
-    if len(det_pool) < 400:
-        det_pool.append((case['text'], info['fp'], info['fp_loose']))
+    if len(det_pool) < 400 and 'fp' in info:
+        det_pool.append((case['text'], info['fp'], info['fp_loose'], info['fp_bag']))
     seen = set()
     for sig, detail in viol:
         if sig not in seen:
@@ -288,13 +301,19 @@ def shard(rec, idx, nshards, seed, tier):
     k = 60 if tier == 'quick' else 400
     sample = det_pool[:k]
     if sample:
-        other = _other_process([t for t, _, _ in sample])
+        other = _other_process([t[0] for t in sample])
         rec.extra['cross_process_recompiled'] = rec.extra.get('cross_process_recompiled', 0) + len(sample)
-        for (text, fp, fp_loose), fps in zip(sample, other):
+        for (text, fp, fp_loose, fp_bag), fps in zip(sample, other):
             fp2 = fps[0] if fps else None
             if fp2 is not None and fp != fp2 and fp_loose == fps[1]:
                 rec.violation('nondeterministic:transient-id-in-sql', dict(text=text, features=[]),
                               f'`{text}`: two processes differ only in uuid-valued identifiers')
+                continue
+            if fp2 is not None and fp != fp2 and fp_bag == fps[2]:
+                kind = 'dml' if re.search(r'\b(insert|update|delete)\b', text) else 'query'
+                rec.violation(f'nondeterministic:reordered:{kind}', dict(text=text, features=[], xproc=True),
+                              f'`{text}`: two processes with different PYTHONHASHSEED emit the same SQL tokens '
+                              f'in a different order')
                 continue
             if fp2 is None:
                 rec.violation('nondeterministic:other-process-rejects', dict(text=text, features=[]),
@@ -333,7 +352,7 @@ if __name__ == '__main__' and '--fingerprints' in sys.argv:
     for t in texts:
         try:
             units, _ = _compile(t)
-            out.append([fingerprint(units, mask=True), fingerprint(units, mask=2)])
+            out.append([fingerprint(units, mask=True), fingerprint(units, mask=2), fingerprint(units, mask=3)])
         except Exception:
             out.append(None)
     print(json.dumps(out))
